@@ -28,6 +28,9 @@ SITE   (tools/sitegen/validators.py, output coq/Gen/S_validators.v, header also 
                                   def f(params): return <expr>
     ("if_or_first", gen)      X of the `if X or not all(<gen>): raise` guard whose generator unparses to `gen`:
                                   def f(params): return X
+    ("float_test", k)         the test of the `if <test>: break` inside the k-th top-level `while`, translated
+                              SYMBOLICALLY over Lib/PyValid.v:fops (* / + max np.log > and integer constants):
+                                  Definition f (F : fops) (params : ft F) : bool
     ("while_test", k)         the test of the k-th `while` among the function's top-level statements:
                                   def f(params): return <test>
     ("stmt_present", text) / ("if_test_present", text)
@@ -107,6 +110,13 @@ SITE = [
     dict(name="sv_einsum_out_count_check", file=CM, func="_parse_einsum_input",
          locator=("if_stmt", "output_subscript.count(char) != 1"), params=["cnt"],
          extern={"output_subscript.count(char)": "Ok cnt"}),
+    # _compute_mask: the cost estimate that decides between per-position binary searches and one linear filter.
+    # The work bound of Props/C18.v (compute_mask_work_bound) is proved about THESE two extracted expressions.
+    dict(name="sv_cm_n_current_slices", file="sparse/numba_backend/_coo/indexing.py", func="_compute_mask",
+         locator=("assign_value", "n_current_slices"), params=["rlen", "n_pairs"],
+         extern={"len(range(indices[i, 0], indices[i, 1], indices[i, 2]))": "Ok rlen"}),
+    dict(name="sv_cm_break", file="sparse/numba_backend/_coo/indexing.py", func="_compute_mask",
+         locator=("float_test", 0), params=["n_current_slices", "n_pairs", "n_matches"]),
     # the outer-loop tests of the two COO x ndarray kernels (the guard that repaired D3 lives here)
     dict(name="sv_dcn_outer_test", file=CM, func="_dot_coo_ndarray_type._dot_coo_ndarray", locator=("while_test", 0),
          params=["didx1", "n", "ncols"], extern={"len(data1)": "Ok n", "out_shape[1]": "Ok ncols"}),
